@@ -19,7 +19,7 @@ PROPS = {
             "Rtr.C10.getAll_spec", "Rtr.C10.searchBySki_spec", "Rtr.C10.copyExcept_refines",
             "Rtr.C10.swap_refines", "Rtr.C10.notifyDiff_refines", "Rtr.C10.history_refines",
             "Rtr.C10.spki_log_replays", "Rtr.C10.spki_log_exact", "Rtr.C10.spki_log_steps", "Rtr.C10.notifyDiff_net",
-            "Rtr.C10.F9_unfixed_violates",
+            "Rtr.C10.F9_unfixed_violates", "Rtr.C10.cmp_iff_eq", "Rtr.C10.collision_kept_apart",
         ],
     },
 }
@@ -49,10 +49,42 @@ def load_corpus():
     return out
 
 
-def generate(r, tier):
+def probe_base_bit(exe):
+    """bucket_bit of a freshly initialised table of the implementation under test (TOMMY_HASHLIN_BIT of that tree);
+    cross-checked against the header text when it can be read"""
+    out, rc, err = vlib.run_lines(exe, ["new 0", "hl 0"])
+    bit = None
+    if rc == 0 and len(out) == 2:
+        m = HL.match(out[1])
+        if m:
+            bit = int(m.group(2))
+    try:
+        src = open(os.path.join(vlib.REPO, "third-party", "tommyds", "tommyhashlin.h"), errors="replace").read()
+        m = re.search(r"#\s*define\s+TOMMY_HASHLIN_BIT\s+(\d+)", src)
+        if m and bit is None:
+            bit = int(m.group(1))
+    except OSError:
+        pass
+    return bit if bit is not None and 1 <= bit <= 14 else 6
+
+
+def generate(r, tier, base_bit=6):
     hs = []
     mult = 1 if tier == "quick" else 20
     hid = 0
+    # grow -> partial shrink -> regrow, scaled to the initial size of the table under test (levels up to 4096 buckets)
+    levels = [l for l in (1, 2, 3, 4) if base_bit + l <= 12] or [1]
+    for _ in range(30 * mult):
+        hid += 1
+        hs.append(spkigen.gen_cmp(r, hid))
+    for _ in range(60 * mult):
+        hid += 1
+        hs.append(spkigen.gen_forced(r, hid))
+    for rep_ in range(mult):
+        for k, level in enumerate(levels):
+            for by_source in ((True, False) if (base_bit + level <= 9 or rep_ == 0 and level == levels[0]) else (bool((k + rep_) % 2),)):
+                hid += 1
+                hs.append(spkigen.gen_regrow(r, hid, base_bit, level, by_source))
     for _ in range(400 * mult):
         hid += 1
         hs.append(spkigen.gen_small(r, hid, r.randrange(4, 40), reload=r.random() < 0.4, copyerr=r.random() < 0.25))
@@ -65,6 +97,11 @@ def generate(r, tier):
     return hs
 
 
+def lowmax_prev(p, bit):
+    """low_max of a table observed in shrink state at bucket_bit `bit`: half the bucket count"""
+    return (1 << bit) // 2
+
+
 class Stats:
     def __init__(self):
         self.d = {"histories": 0, "ops": 0, "op_kinds": {}, "rc": {}, "transitions": {}, "grow_steps": 0,
@@ -72,7 +109,10 @@ class Stats:
                   "shrink_completed": 0, "max_steps_between_observations": 0, "max_bucket_bit": 0, "max_count": 0,
                   "bucket_bits_seen": {}, "buckets_sharing_asns": 0, "max_bucket_len": 0, "lookups_multi": 0,
                   "lookups_empty": 0, "lookups_multi_src": 0, "copy_errors": 0, "reloads": 0, "callbacks": 0,
-                  "malformed_rejected": 0, "by_kind": {}}
+                  "malformed_rejected": 0, "by_kind": {}, "cmp_pairs": {}, "cmp_answers": {},
+                  "forced_same_hash_distinct_records": 0, "forced_duplicates": 0, "forced_absent_probe": 0,
+                  "forced_found": 0, "regrow_takeovers": 0, "regrow_max_count": 0, "regrow_partial_shrink_split": 0}
+        self.base_bit = 6
         self.distinct = set()
 
     def bump(self, k, sub=None, n=1):
@@ -86,6 +126,7 @@ class Stats:
         d["histories"] += 1
         self.bump("by_kind", h.kind)
         prev = {}
+        fkeys = {}
         for op, line in zip(h.ops, out):
             w = op.split()
             d["ops"] += 1
@@ -113,6 +154,8 @@ class Stats:
                 self.distinct.add((bit, lowmax, split, st))
                 d["max_bucket_bit"] = max(d["max_bucket_bit"], bit)
                 d["max_count"] = max(d["max_count"], cnt)
+                if h.kind == "regrow":
+                    d["regrow_max_count"] = max(d["regrow_max_count"], cnt)
                 self.bump("bucket_bits_seen", str(bit))
                 p = prev.get(w[1])
                 cur = (lowmax + split, st, cnt, bit)
@@ -126,6 +169,9 @@ class Stats:
                             # a shrink reversed by an insert: count > bucket_max/2 = low_max makes the grow
                             # target 2*count reach 2*low_max, so the reversed resize completes in that insert
                             d["flips_shrink_to_grow"] += 1
+                            if h.kind == "regrow" and bit > self.base_bit and 0 < p[0] - lowmax_prev(p, bit) :
+                                d["regrow_takeovers"] += 1
+                                d["regrow_partial_shrink_split"] = max(d["regrow_partial_shrink_split"], p[0] - lowmax_prev(p, bit))
                         elif p[1] == 2 and st == 0:
                             d["shrink_completed"] += 1
                         elif p[1] == 1 and st == 0:
@@ -137,12 +183,39 @@ class Stats:
                     d["max_steps_between_observations"] = max(d["max_steps_between_observations"], abs(dv))
                 prev[w[1]] = cur
             elif cmd == "buckets":
-                for tok in line.split()[1:]:
-                    body = tok.split(":[", 1)[1].rstrip("]")
-                    recs = [x for x in body.split(",") if x]
+                for _, recs in spkigen.parse_buckets(line)[0]:
                     d["max_bucket_len"] = max(d["max_bucket_len"], len(recs))
                     if len(set(x.split(":")[0] for x in recs)) > 1:
                         d["buckets_sharing_asns"] += 1
+            elif cmd == "cmp" and len(w) == 9:
+                diff = [n for n, x, y in zip(("asn", "ski", "spki", "src"), w[1:5], w[5:9]) if x != y]
+                cls = "+".join(diff) if diff else "equal"
+                if len(diff) == 1 and diff[0] in ("ski", "spki"):
+                    k = 1 if diff[0] == "ski" else 2
+                    nb = 20 if diff[0] == "ski" else 91
+                    x = int(w[1 + k], 16) ^ int(w[5 + k], 16)
+                    pos = nb - 1 - (x.bit_length() - 1) // 8
+                    cls = "%s[%s]" % (diff[0], pos if pos in (0, 19, 20, nb - 1) else "mid")
+                self.bump("cmp_pairs", cls)
+                self.bump("cmp_answers", line)
+            elif cmd == "fadd" and len(w) == 6:
+                key = w[1]
+                if line == "0":
+                    if fkeys.get(key):
+                        d["forced_same_hash_distinct_records"] += 1
+                    fkeys.setdefault(key, set()).add(tuple(w[2:]))
+                elif line == "-2":
+                    d["forced_duplicates"] += 1
+            elif cmd in ("fget", "frm") and len(w) == 6:
+                if line == "0":
+                    if fkeys.get(w[1]):
+                        d["forced_absent_probe"] += 1
+                else:
+                    d["forced_found"] += 1
+                    if cmd == "frm":
+                        fkeys.get(w[1], set()).discard(tuple(w[2:]))
+            elif cmd == "fnew":
+                fkeys.clear()
             elif cmd in ("get", "byski"):
                 toks = line.split()
                 self.distinct.add((op.split(None, 2)[2], tuple(sorted(toks[2:]))))
@@ -169,6 +242,14 @@ class Stats:
                 missing.append("rc " + k)
         if d["max_bucket_bit"] < 9:
             missing.append("bucket_bit>=9")
+        for k in ("regrow_takeovers", "forced_same_hash_distinct_records", "forced_duplicates", "forced_absent_probe", "forced_found"):
+            if not d[k]:
+                missing.append(k)
+        if d["regrow_max_count"] <= (1 << self.base_bit):
+            missing.append("regrow beyond the initial table size 2^%d" % self.base_bit)
+        for cls in ("equal", "asn", "ski[0]", "ski[19]", "spki[0]", "spki[19]", "spki[20]", "spki[90]", "src"):
+            if not d["cmp_pairs"].get(cls):
+                missing.append("cmp " + cls)
         return missing
 
 
@@ -184,8 +265,13 @@ def minimise_oracle(exe, ops, clause):
         if rc != 0 or len(o) != len(x):
             return False
         return any(f[0] == clause for f in oracle(x, o))
-    # drop pure observation lines first (cheap), keep at least one observer of each kind
-    return vlib.ddmin(list(ops), fails, max_tests=300)
+    ops = list(ops)
+    # drop pure observation lines first (cheap): table-field dumps, then lookups
+    for drop in (("hl", "fhl"), ("get", "byski", "fget"), ("log",), ("list",)):
+        cand = [o for o in ops if o.split()[:1] and o.split()[0] not in drop]
+        if len(cand) < len(ops) and fails(cand):
+            ops = cand
+    return vlib.ddmin(ops, fails, max_tests=300)
 
 
 def minimise_crash(exe, ops):
@@ -240,26 +326,36 @@ def run(pid, tier):
 
     r = vlib.rng(pid)
     corpus = load_corpus()
-    cases = corpus + generate(r, tier)
+    base_bit = probe_base_bit(exe)
+    cases = corpus + generate(r, tier, base_bit)
     stats = Stats()
     stats.d["corpus"] = len(corpus)
+    stats.d["base_bit"] = base_bit
+    stats.base_bit = base_bit
     divergences = []
     oracle_fails = []
     crashes = []
 
     # batches: several histories per process pair; a crash only loses one batch
+    # the classes that exercise one mechanism each (corpus, key_entry_cmp, forced collisions, regrow) always run completely,
+    # so that a failure is reported through the most direct input; after them the quick tier stops at the first failing batch
+    PRIORITY = ("corpus", "cmp", "forced", "regrow")
     batches = []
     cur, curlen = [], 0
-    for h in cases:
+    nprio = 0
+    for idx, h in enumerate(cases):
         cur.append(h)
         curlen += len(h.ops)
-        if curlen > 6000 or h.kind == "corpus":
+        last_prio = h.kind in PRIORITY and (idx + 1 == len(cases) or cases[idx + 1].kind not in PRIORITY)
+        if curlen > 6000 or h.kind == "corpus" or last_prio:
             batches.append(cur)
             cur, curlen = [], 0
+            if h.kind in PRIORITY:
+                nprio = len(batches)
     if cur:
         batches.append(cur)
 
-    for batch in batches:
+    for bi, batch in enumerate(batches):
         ops = [l for h in batch for l in h.ops]
         (impl, rc, err), (model, mrc, merr) = run_pair(exe, drv, ops)
         if mrc != 0 or len(model) != len(ops):
@@ -287,7 +383,7 @@ def run(pid, tier):
             for f in oracle(h.ops, io):
                 oracle_fails.append((h, f))
             stats.feed(h, io)
-        if (oracle_fails or crashes) and tier == "quick":
+        if (oracle_fails or crashes) and tier == "quick" and bi + 1 >= nprio:
             break
 
     missing = stats.gate() if not (oracle_fails or crashes or divergences) else []
@@ -297,7 +393,11 @@ def run(pid, tier):
         "rule": "operation histories over router keys whose AS numbers share tommy_inthash_u32 buckets (classes modulo 64 "
                 "and modulo 1024), shared SKIs, 3 sources; small universes observed after every op, and table sizes swept "
                 "over the grow/shrink thresholds with direction reversals inside a resize; reload sequences "
-                "(copy_except/swap/notify_diff); internal hash-table fields compared after every mutating op, bucket and list "
+"(copy_except/swap/notify_diff); grow -> partial shrink (most keys of one source removed) -> regrow on one table "
+                "scaled to 2^bucket_bit of the freshly initialised table under test; key_entry_cmp called directly on pairs differing "
+                "in exactly one field (AS bit, SKI byte first/mid/20th, key byte first/20th/21st/mid/last, source) and on equal pairs; "
+                "records differing in one field filed under one CHOSEN 32-bit hash through the real tommy_hashlin_search/insert/remove "
+                "(forced full-hash collision); internal hash-table fields compared after every mutating op, bucket and list "
                 "order compared literally; distinct = distinct (bucket_bit, low_max, split, state) configurations + distinct "
                 "(lookup, answer) pairs observed on the implementation",
         "traces_validated_against_impl": len(cases) - len(set(id(x[0]) for x in divergences)) - len(crashes),
@@ -316,7 +416,10 @@ def run(pid, tier):
         rep.violation("crash", "# implementation aborted (rc=%s) after %d replies\n# %s\n%s\n--- stderr ---\n%s\n" % (
             rc1, nout, sig, "\n".join(ops), err1[-3000:]), signature=sig)
     seen = set()
-    for h, (clause, i, msg) in oracle_fails:
+    # per clause, report the failure that comes with the shortest history (the most direct input)
+    order_ = sorted(range(len(oracle_fails)), key=lambda k: (len(oracle_fails[k][0].ops), k))
+    for k_ in order_:
+        h, (clause, i, msg) = oracle_fails[k_]
         if clause in seen:
             continue
         seen.add(clause)
